@@ -98,6 +98,20 @@ def kernel_cases(ctx):
         xs += [rng.range(-32767, 32767) for _ in range(40)] + [rng.range(-3 * d, 3 * d) for _ in range(10)]
         xs = [max(-32768, min(32767, x)) for x in xs][:64]
         cases.append(("quant %d %s" % (d, " ".join(map(str, xs))), "k-quant"))
+    # fast forward DCT: the refutation witness of props/C05.v (black/white stripes), high- and low-amplitude blocks
+    stripes = [127 if ((x // 3 + y // 2) & 1) else -128 for y in range(8) for x in range(8)]
+    cases.append(("fdctfst " + " ".join(map(str, stripes)), "k-fdctfst-high"))
+    for r in range(ctx.n(40, 400)):
+        amp = rng.choice([4, 16, 60, 128, 128])
+        kind = rng.below(3)
+        if kind == 0:
+            blk = [rng.range(-amp, amp - 1) for _ in range(64)]
+        elif kind == 1:
+            p, q = rng.range(1, 4), rng.range(1, 4)
+            blk = [(amp - 1 if ((x // p + y // q) & 1) else -amp) for y in range(8) for x in range(8)]
+        else:
+            blk = [max(-128, min(127, (x * rng.range(-20, 20) + y * rng.range(-20, 20)) * amp // 128)) for y in range(8) for x in range(8)]
+        cases.append(("fdctfst " + " ".join(map(str, blk)), "k-fdctfst-" + ("low" if amp <= 60 else "high")))
     # bulk (compared inside the harness; exhaustive where feasible)
     seed = rng.below(1 << 30)
     for cs in ALL_CS:
@@ -152,6 +166,8 @@ def kernel_sig(line, stream):
         if t[1] in ("fdct", "idct") and t[2] == "1" and t[3] == "0":
             return "ifast-16bit-overflow:kernel-" + t[1]
         return "kernel:" + "-".join(t[1:3] if t[1] in ("fdct", "idct", "down", "fancy", "plain") else t[1:2])
+    if t[0] == "fdctfst" and stream.endswith("high"):
+        return "ifast-16bit-overflow:kernel-fdct"
     return "kernel:" + t[0]
 
 
@@ -176,6 +192,7 @@ def do_kernel(ctx, exe, drv, cases, isas):
                 ctx.broken_tie("model-driver", "extracted model failed under %s: rc=%d %s" % (isa, rc2, me[-200:]))
                 ml = None
         nmodel = 0
+        ndis = {}
         for i, (line, stream) in enumerate(cases):
             res = lines[i]
             parts = res.split(" ; ")[0].split(" | ")
@@ -196,6 +213,9 @@ def do_kernel(ctx, exe, drv, cases, isas):
             if ml is not None and cmd != "bulk":
                 nmodel += 1
                 if ml[i].strip() != res.strip():
+                    ndis[(cmd, isa)] = ndis.get((cmd, isa), 0) + 1
+                    if ndis[(cmd, isa)] > 3:
+                        continue
                     ctx.log("model/impl disagree (%s, %s)\n  case : %s\n  model: %s\n  impl : %s" % (isa, cmd, line[:150], ml[i][:200], res[:200]))
                     # which side? model-asm vs SIMD kernel, model-C vs C function
                     mp = ml[i].split(" | ")
@@ -211,6 +231,7 @@ def do_kernel(ctx, exe, drv, cases, isas):
             if i % 499 == 0:
                 ctx.sample({"isa": isa, "case": line[:200], "result": res[:200]})
         ctx.cov["traces_validated_against_impl"] += nmodel
+        ctx.cov["model_impl_disagreements"] = ctx.cov.get("model_impl_disagreements", 0) + sum(ndis.values())
 
 
 # ----------------------------------------------------------------------------- codec cases
